@@ -3,7 +3,7 @@
    (what the code does) and C08/Spec.v (what a valid file is; wf_state). *)
 From Coq Require Import List NArith ZArith Bool String Ascii Permutation Reals.
 From T4V Require Import Base.Str C08.Model C08.Spec C08.ProofsSets C08.ProofsWrite C08.ProofsPrune
-     C08.ProofsTail C08.SurfEq C08.Parse C08.ProofsChars C08.ProofsParse C08.ProofsGiven C08.ProofsEnd C08.CheckText C08.Check C08.ProofsRefute.
+     C08.ProofsTail C08.SurfEq C08.Parse C08.ProofsChars C08.ProofsParse C08.ProofsGiven C08.ProofsEnd C08.CheckText C08.Check C08.ProofsRefute C08.LinkC01a C08.LinkC01b C08.LinkC01.
 Import ListNotations.
 
 (* VolumeT4.__str__: for EVERY volume (no hypothesis), each declared count equals the
@@ -193,6 +193,57 @@ Theorem C08_convert_tail_text_wf_R :
 Proof. exact (convert_tail_text_wf Req_payload Req_payload_sym Req_payload_trans). Qed.
 Print Assumptions C08_convert_tail_text_wf_R.
 
+(* LINKED WITH C01 (C01's files imported read-only).  The volume table is the one C01's model
+   of construct_volume_t4's conversion loop (C01.Model.convert_cells from the empty state)
+   builds from the cell trees, read as a C08 table (tr_table).  The volume-number part of
+   stage0_ok — distinct keys (C01: convert_cells_keys), no operand is None (C01:
+   convert_cells_nonone, the content of C01_to_t4_cell_sound / C01_cells), every operand is a
+   key of the table (C08/LinkC01a.v: convert_cells_closed, the same induction over C01's
+   model) — is now DERIVED, not assumed.  What is still asked of the other tables is
+   stage0_rest (surface numbers are entries of the surface dictionary, helper planes, skip
+   list, cells behind the non-virtual volumes, strings are words).  Conclusion: from cell trees
+   to the characters of the file, for every option set. *)
+Theorem C08_table_refs_linked : forall fuel cells matching u0 u1 todo cnt0 s',
+  M1.convert_cells fuel cells matching u0 u1 todo (M1.mkSt cnt0 [] [] []) = M1.Ok s' ->
+  NoDup (keys (tr_table (M1.vols s'))) /\
+  forall k v x, In (k, v) (tr_table (M1.vols s')) -> In x (operands v) ->
+    exists j, x = Some j /\ In j (keys (tr_table (M1.vols s'))).
+Proof. exact c01_table_refs. Qed.
+Print Assumptions C08_table_refs_linked.
+
+Theorem C08_convert_wf_linked :
+  forall fuel cells matching u0 u1 todo cnt0 s' skip_dedup (w : wstate (spayload R)),
+  M1.convert_cells fuel cells matching u0 u1 todo (M1.mkSt cnt0 [] [] []) = M1.Ok s' ->
+  w_vols w = tr_table (M1.vols s') ->
+  stage0_rest u0 u1 w ->
+  exists o, convert_tail Req_payload skip_dedup u0 u1 w = Ok o /\
+    (o = Died false [] EValue \/
+     exists f, (o = Complete f \/ exists e, o = Raised f e) /\
+               wf_file f /\ parse_t4 (print_t4 f) = Some f /\
+               forall finite : string -> Prop,
+                 Forall finite (state_numbers w) -> Forall finite (file_numbers f)).
+Proof. exact convert_wf_linked. Qed.
+Print Assumptions C08_convert_wf_linked.
+
+(* ... and the surface numbers too (C08/LinkC01b.v, again an induction over C01's model:
+   pot_expand_surfs puts only numbers of `matching` into the tree, pot_optimise keeps leaves,
+   conv_equa / the helper equations / the stand-in volume use their absolute values and the
+   helper ids): "surface numbers of the volumes are entries of the surface dictionary" is now
+   asked of `matching` (the output of number_items) and of the helper ids only *)
+Theorem C08_convert_wf_surfaces_linked :
+  forall fuel cells matching u0 u1 todo cnt0 s' skip_dedup (w : wstate (spayload R)),
+  M1.convert_cells fuel cells matching u0 u1 todo (M1.mkSt cnt0 [] [] []) = M1.Ok s' ->
+  w_vols w = tr_table (M1.vols s') ->
+  stage0_rest2 u0 u1 matching w ->
+  exists o, convert_tail Req_payload skip_dedup u0 u1 w = Ok o /\
+    (o = Died false [] EValue \/
+     exists f, (o = Complete f \/ exists e, o = Raised f e) /\
+               wf_file f /\ parse_t4 (print_t4 f) = Some f /\
+               forall finite : string -> Prop,
+                 Forall finite (state_numbers w) -> Forall finite (file_numbers f)).
+Proof. exact convert_wf_linked_surfaces. Qed.
+Print Assumptions C08_convert_wf_surfaces_linked.
+
 (* ---- open defects: a composition that is named but not written.  The hypothesis cell_named
    (s0_cells / ws_cells) of the theorems above cannot be dropped: with closed tables, a cell
    material without M card, or a cell of negative importance, gives a file whose GEOMCOMP
@@ -249,6 +300,17 @@ Example C08_example :
     f_bc f = Some (1%N, [("REFLECTION"%string, 2%Z)]) /\
     List.length (f_vols f) = 4%nat /\ surf_ids f = [1; 2; 3; 7; 8]%Z.
 Proof. exact example_pipeline. Qed.
+
+(* the hypotheses of C08_convert_wf_linked are satisfiable: C01's example deck (five cells,
+   a union, a cell reference, a cell of importance 0) through C01's model, its table in a
+   C08 state *)
+Example C08_convert_wf_linked_example :
+  M1.convert_cells 6 T4V.C01.ProofsCells.ex_cells T4V.C01.ProofsCells.ex_matching 6 7
+                   T4V.C01.ProofsCells.ex_todo (M1.mkSt 50 [] [] []) = M1.Ok ex_s' /\
+  w_vols ex_w = tr_table (M1.vols ex_s') /\ stage0_rest 6 7 ex_w /\
+  List.length (w_vols ex_w) = 9%nat /\
+  map fst (filter (fun p => negb (v_fictive (snd p))) (w_vols ex_w)) = [10; 20; 30]%Z.
+Proof. exact convert_wf_linked_example. Qed.
 
 (* flagged surfaces: unused one dropped, merged one listed under the survivor's number,
    conflicting kinds -> ValueError after a well-formed file without the block *)
